@@ -191,7 +191,11 @@ def one_tree(ctx, rng, seed):
                 extra[f"src/new{i}{rng.choice(['.md', '.txt', '.rb', ''])}"] = b"def not_code():\n    pass\n"
             else:
                 extra[f"lib/.dot{i}.c"] = b"int d() {\n}\n"
-        extra = {k: v for k, v in extra.items() if k not in files and S.qualifies(k, exclusions) is None}
+        def collides(k):  # a new path must not need a directory where the tree has a file, nor be a directory of the tree
+            parts = k.split("/")
+            return any("/".join(parts[:i]) in files for i in range(1, len(parts) + 1)) or any(f.startswith(k + "/") for f in files)
+
+        extra = {k: v for k, v in extra.items() if not collides(k) and S.qualifies(k, exclusions) is None}
         if extra and channel != "main_scan":
             TG.materialise(real_root, extra)
             try:
@@ -202,6 +206,48 @@ def one_tree(ctx, rng, seed):
                                   {"added": sorted(extra), "new_entries": sorted(set(got2) - set(got))[:6], "lost": sorted(set(got) - set(got2))[:6]})
             except Exception as e:
                 ctx.violation("scan_exception", dict(case, extra=sorted(extra)), {"error": f"{type(e).__name__}: {e}"})
+    finally:
+        shutil.rmtree(base, ignore_errors=True)
+
+
+def channel_equivalence(ctx, rng):
+    """Metamorphic: one exclusion list, delivered through Configuration.exclude, .codelimit.yml and the root .gitignore, must select
+    the same files. No reference semantics is needed, so the list may use any gitignore syntax (negation, **, anchors, classes)."""
+    from vf.props.c12 import wild_patterns
+
+    files = TG.random_tree(rng)
+    exclusions = TG.random_exclusions(rng, files) + wild_patterns(rng, files)
+    base = os.path.realpath(tempfile.mkdtemp(prefix="vf-c11-eq-"))
+    try:
+        results = {}
+        for channel in ("configuration", "config_file", "gitignore", "main_scan"):
+            root = os.path.join(base, channel, "proj")
+            os.makedirs(root)
+            TG.materialise(root, files)
+            if channel == "config_file":
+                with open(os.path.join(root, ".codelimit.yml"), "w") as f:
+                    f.write("exclude:\n" + "".join(f"  - {json.dumps(p)}\n" for p in exclusions))
+            if channel == "gitignore":
+                with open(os.path.join(root, ".gitignore"), "w") as f:
+                    f.write("\n".join(exclusions) + "\n")
+            ctx.eval()
+            try:
+                got, _, _ = run_scan(root, os.path.dirname(root), channel, exclusions, root)
+                results[channel] = got
+            except Exception as e:
+                ctx.violation("scan_exception", {"files": {k: v.decode("latin-1") for k, v in files.items()}, "exclusions": exclusions,
+                                                 "channel": channel, "equivalence": True}, {"error": f"{type(e).__name__}: {e}", "tb": short_tb(5)})
+                return
+        ctx.count("monitor.channel_equivalence_checks")
+        ref = results["configuration"]
+        for channel, got in results.items():
+            if got != ref:
+                ctx.violation("channels_disagree", {"files": {k: v.decode("latin-1") for k, v in files.items()}, "exclusions": exclusions,
+                                                    "equivalence": True},
+                              {"exclusions": exclusions, "channel": channel, "only_via_Configuration": sorted(set(ref) - set(got))[:6],
+                               f"only_via_{channel}": sorted(set(got) - set(ref))[:6]})
+                break
+        ctx.distinct(["eq", sorted(files), exclusions])
     finally:
         shutil.rmtree(base, ignore_errors=True)
 
@@ -246,6 +292,8 @@ def run(shard, ctx):
     rng = rng_for(shard["seed"], "c11", shard["part"])
     for i in range(shard["trees"] // shard["parts"]):
         one_tree(ctx, rng, shard["seed"])
+    for i in range(max(1, shard["trees"] // shard["parts"] // 6)):
+        channel_equivalence(ctx, rng)
     for i in range(shard["cli"]):
         cli_case(ctx, rng)
     files = TG.random_tree(rng)
@@ -258,6 +306,17 @@ def replay(case, ctx):
     install_audit()
     files = {k: v.encode("latin-1") for k, v in case["files"].items()}
     exclusions = case["exclusions"]
+    if case.get("equivalence"):
+        import vf.props.c12 as c12mod
+        o1, o2, o3 = TG.random_tree, TG.random_exclusions, c12mod.wild_patterns
+        TG.random_tree = lambda rng, *a, **k: dict(files)
+        TG.random_exclusions = lambda rng, f: list(exclusions)
+        c12mod.wild_patterns = lambda rng, f: []
+        try:
+            channel_equivalence(ctx, rng_for(0, "c11-replay"))
+        finally:
+            TG.random_tree, TG.random_exclusions, c12mod.wild_patterns = o1, o2, o3
+        return
 
     class Fixed:
         def __init__(self):
